@@ -189,6 +189,7 @@ class C09(Property):
     assumptions = [
         "'valid' is read from the docstrings: finite ScalarField, documented option values, |values| <= 2e6, vmin < vmax when both are numbers; when only one level is left to be determined automatically the supplied one lies outside the data range on the proper side",
         "perturbation modes are requested only on grids of dimension 2 or 3; perturbed renders only on compatible grids (see C03)",
+        "fields whose contrast is positive but below 1e-9 of their magnitude (not resolvable in double precision) are skipped and counted; exactly constant fields are judged",
     ]
 
     def budget(self, tier):
@@ -211,6 +212,11 @@ class C09(Property):
         grid = build_grid(spec["grid"])
         data = make_field(grid, spec["field"])
         lo, hi = float(data.min()), float(data.max())
+        if 0 < hi - lo < 1e-9 * max(abs(lo), abs(hi)):
+            # contrast below 1e-9 of the magnitude (a few hundred ulps): the image is neither constant nor resolvable in double
+            # precision (numpy cannot even form a 256-bin histogram of it); constant fields are generated and judged
+            ctx.skip("sub-resolution-contrast")
+            return
         thr = spec["threshold"]
         if thr == "number":
             thr = lo + spec["t_frac"] * (hi - lo)
